@@ -70,6 +70,24 @@ Section Inv.
     - now rewrite andb_true_r.
   Qed.
 
+  (* consequences used by the no-box / open-box probes: a world point whose pixel position is not finite on some axis is never in
+     the image, whatever the box (also a box open to infinity); without a box, finiteness is the whole test *)
+  Corollary in_image_needs_finite x : analytic_masks = false -> (0 < npix)%nat ->
+    in_image x = true -> all_finite (raw x) = true.
+  Proof. intros Hm Hn H. rewrite (in_image_spec x Hm Hn) in H. now apply andb_prop in H. Qed.
+
+  Corollary nonfinite_pixel_not_in_image x : analytic_masks = false -> (0 < npix)%nat ->
+    existsb (fun c => negb (is_finite c)) (raw x) = true -> in_image x = false.
+  Proof.
+    intros Hm Hn H. destruct (in_image x) eqn:E; [|reflexivity].
+    pose proof (in_image_needs_finite x Hm Hn E) as Hf. unfold all_finite in Hf. rewrite forallb_forall in Hf.
+    apply existsb_exists in H. destruct H as [c [Hin Hc]]. rewrite (Hf c Hin) in Hc. discriminate Hc.
+  Qed.
+
+  Corollary in_image_without_box x : analytic_masks = false -> (0 < npix)%nat -> box = None ->
+    in_image x = all_finite (raw x).
+  Proof. intros Hm Hn Hb. rewrite (in_image_spec x Hm Hn), Hb. apply andb_true_r. Qed.
+
   (* the iterative path masks exactly the valid solutions that fall outside the closed box *)
   Theorem iterative_masks b wb fill x : box = Some b -> analytic = None ->
     invert wb fill x =
